@@ -524,3 +524,285 @@ pub(crate) fn basis_regime<S: Dom>(t: &mut Tape, cx: &mut Cx) -> CaseResult {
     layout!(cm, "col-major");
     Ok(())
 }
+
+// ---------------------------------------------------------------------------------------------------------
+// STEEP cameras (small legal angle a between up and the view direction, parallel or antiparallel side) and
+// the symmetric family, up almost exactly perpendicular to the view direction.
+//
+// What is ill-conditioned at a small angle is only the ROLL (direction of side / up' around the view axis):
+// a relative perturbation eps of up or of target - eye turns it by eps / sin a, whatever the implementation.
+// Unit length of the three axes, up' . forward, side . up' and the determinant are NOT ill-conditioned, and the
+// component of a roll axis along forward is first order (eps / sin a) at worst. So rigidity is asserted with
+// fixed multiples of eps (plus the first-order term on the dots with forward, plus its square where it enters
+// quadratically) - nothing here grows like 1 / a^2 - and the roll against an oracle whose cross product is
+// evaluated with error-free transformations, to CROLL eps / sin a.
+// ---------------------------------------------------------------------------------------------------------
+
+/// |row|^2 - 1 and det - 1: fixed budget in eps. Worst case by operation count: a normalised vector is unit to
+/// 2.5 eps (sum of squares, sqrt, division), the second cross product of two such to 5.5 eps, squared / tripled
+/// 11 eps, plus 2 eps of evaluation when S = f64. Observed on the unchanged tree: <= 5 at every angle.
+const CN: f64 = 24.0;
+/// side . up' and the fixed part of the dots with forward (worst case ~4, observed <= 1).
+const CD: f64 = 12.0;
+/// first-order part of (roll axis) . forward, in eps / sin a: the rounding of the products of the cross product
+/// projects onto forward with at most 3 max|fx fy fz| ~ 0.6 (observed 0.39 on the unchanged tree for side . forward).
+const CS: f64 = 8.0;
+/// roll: entries of side and up' against the oracle, in eps / sin a (worst case by operation count ~5).
+const CROLL: f64 = 64.0;
+/// forward row against unit(target - eye): well conditioned (worst case ~3.5 eps).
+const CFWD: f64 = 12.0;
+
+fn two_sum(a: f64, b: f64) -> (f64, f64) {
+    let s = a + b;
+    let bb = s - a;
+    (s, (a - (s - bb)) + (b - bb))
+}
+fn two_prod(a: f64, b: f64) -> (f64, f64) {
+    let p = a * b;
+    (p, a.mul_add(b, -p))
+}
+/// a1*b1 - a2*b2 rounded once (relative to the RESULT, not to the products): error-free products and sum
+fn diff_of_products(a1: f64, b1: f64, a2: f64, b2: f64) -> f64 {
+    let (p1, e1) = two_prod(a1, b1);
+    let (p2, e2) = two_prod(a2, b2);
+    let (s, e) = two_sum(p1, -p2);
+    s + (e + (e1 - e2))
+}
+/// a x (b_hi + b_lo), the leading part without cancellation error
+fn cross_accurate(a: &[f64; 3], bh: &[f64; 3], bl: &[f64; 3]) -> [f64; 3] {
+    let c = |i: usize, j: usize| diff_of_products(a[i], bh[j], a[j], bh[i]) + (a[i] * bl[j] - a[j] * bl[i]);
+    [c(1, 2), c(2, 0), c(0, 1)]
+}
+fn exp_of(m: f64) -> i64 {
+    ((((m.to_bits() >> 52) & 0x7ff) as i64) - 1023).clamp(-1021, 1021)
+}
+
+struct Steep {
+    e: [f64; 3],
+    up: [f64; 3],
+    dp: [f64; 3],
+    f: [f64; 3],
+    /// unit(up x (target - eye)), cross product free of cancellation error
+    side_lh: [f64; 3],
+    dist: f64,
+    ulen: f64,
+    sin: f64,
+    cos: f64,
+    emag: f64,
+    eps: f64,
+}
+
+fn judge_steep<S: Dom>(cx: &mut Cx, o: &Steep, what: &str, rh: bool, view: &[[S; 4]; 4], model: &[[S; 4]; 4]) -> CaseResult {
+    let (zero, one) = (S::zero(), S::one());
+    check_eq!(cx, view[3], [zero, zero, zero, one], "{}: last row is e4", what);
+    check_eq!(cx, model[3], [zero, zero, zero, one], "{}: model last row is e4", what);
+    let (v, m) = (mtof(view), mtof(model));
+    let (eps, f) = (o.eps, o.f);
+    let first = CS * eps / o.sin; // first-order term
+    let r = [row3(&v, 0), row3(&v, 1), row3(&v, 2)];
+    let c = [[m[0][0], m[1][0], m[2][0]], [m[0][1], m[1][1], m[2][1]], [m[0][2], m[1][2], m[2][2]]]; // model columns
+    let names = ["side", "up'", "forward"];
+    for (nm, q) in [("view rows", &r), ("model columns", &c)] {
+        // RIGIDITY - none of these tolerances grows like 1 / sin^2
+        for i in 0..3 {
+            check_near!(cx, dot3(&q[i], &q[i]), 1.0, CN * eps + first * first, "{}: {}: |{}|^2 = 1 (sin(up, forward) = {:.3e}); view = {:?} model = {:?}", what, nm, names[i], o.sin, view, model);
+        }
+        check_near!(cx, dot3(&q[0], &q[1]), 0.0, CD * eps, "{}: {}: side . up' = 0 (sin(up, forward) = {:.3e})", what, nm, o.sin);
+        check_near!(cx, dot3(&q[0], &q[2]), 0.0, CD * eps + first, "{}: {}: side . forward = 0 (sin(up, forward) = {:.3e})", what, nm, o.sin);
+        check_near!(cx, dot3(&q[1], &q[2]), 0.0, CD * eps + first, "{}: {}: up' . forward = 0 (sin(up, forward) = {:.3e})", what, nm, o.sin);
+        check_near!(cx, det3(q), 1.0, CN * eps + first * first, "{}: {}: determinant +1 (sin(up, forward) = {:.3e})", what, nm, o.sin);
+    }
+    // ROLL and forward against the oracle
+    let sg = if rh { -1.0 } else { 1.0 };
+    let s = [sg * o.side_lh[0], sg * o.side_lh[1], sg * o.side_lh[2]]; // f x up = -(up x f)
+    let u = if rh { cross3(&s, &f) } else { cross3(&f, &s) };
+    let rows = [s, u, [sg * f[0], sg * f[1], sg * f[2]]];
+    let tol_roll = CROLL * eps / o.sin;
+    for i in 0..3 {
+        let tol = if i == 2 { CFWD * eps } else { tol_roll };
+        for j in 0..3 {
+            check_near!(cx, r[i][j], rows[i][j], tol, "{}: view {} axis, component {} (sin(up, forward) = {:.3e}); view = {:?}", what, names[i], j, o.sin, view);
+            check_near!(cx, c[i][j], rows[i][j], tol, "{}: MODEL {} axis, component {} (sin(up, forward) = {:.3e}); model = {:?}", what, names[i], j, o.sin, model);
+        }
+    }
+    // images: eye -> 0 relative to |eye|; target - eye -> (0, 0, +-distance); up -> (0, > 0, .)
+    for i in 0..3 {
+        check_near!(cx, dot3(&r[i], &o.e) + v[i][3], 0.0, KT * eps * o.emag, "{}: eye maps to the origin (component {}, relative to |eye| = {:e})", what, i, o.emag);
+        let (want, tol) = if i == 2 { (sg * o.dist, CFWD * eps * o.dist) } else { (0.0, (CD * eps + first) * o.dist) };
+        check_near!(cx, dot3(&r[i], &o.dp), want, tol, "{}: rotation part sends target - eye to (0, 0, +-distance) (component {}, sin(up, forward) = {:.3e})", what, i, o.sin);
+    }
+    check_near!(cx, dot3(&r[0], &o.up), 0.0, tol_roll * o.ulen, "{}: up has no sideways component (relative to |up| = {:e}, sin(up, forward) = {:.3e})", what, o.ulen, o.sin);
+    let uy = dot3(&r[1], &o.up);
+    check!(cx, uy > 0.0, "{}: up must stay in the upper half-plane, got y = {:e} for |up| = {:e}, sin(up, forward) = {:.3e}", what, uy, o.ulen, o.sin);
+    check_near!(cx, uy, o.ulen * o.sin, (CD * eps + first * o.cos.abs()) * o.ulen + tol_roll * tol_roll * o.ulen, "{}: vertical component of up is |up| sin(up, forward)", what);
+    // model: origin -> eye; model * view = view * model = identity (rotation blocks to twice the first-order
+    // budget - view and model may each carry their own first-order roll error -, translation blocks relative
+    // to |eye|)
+    check!(cx, (0..3).all(|i| m[i][3] == o.e[i]), "{}: model matrix sends the origin to the eye: column 3 = {:?}, eye = {:?}", what, [m[0][3], m[1][3], m[2][3]], o.e);
+    for i in 0..3 {
+        for j in 0..3 {
+            let id = if i == j { 1.0 } else { 0.0 };
+            let mv = (0..3).map(|k| m[i][k] * v[k][j]).sum::<f64>();
+            let vm = (0..3).map(|k| v[i][k] * m[k][j]).sum::<f64>();
+            check_near!(cx, mv, id, CN * eps + 2.0 * first, "{}: (model * view)[{}][{}] (sin(up, forward) = {:.3e})", what, i, j, o.sin);
+            check_near!(cx, vm, id, CN * eps + 2.0 * first, "{}: (view * model)[{}][{}] (sin(up, forward) = {:.3e})", what, i, j, o.sin);
+        }
+        let mv_t = (0..3).map(|k| m[i][k] * v[k][3]).sum::<f64>() + m[i][3];
+        let vm_t = (0..3).map(|k| v[i][k] * m[k][3]).sum::<f64>() + v[i][3];
+        check_near!(cx, mv_t, 0.0, (KT * eps + 3.0 * first) * o.emag, "{}: (model * view) translation {} (relative to |eye| = {:e})", what, i, o.emag);
+        check_near!(cx, vm_t, 0.0, KT * eps * o.emag, "{}: (view * model) translation {} (relative to |eye| = {:e})", what, i, o.emag);
+    }
+    Ok(())
+}
+
+pub(crate) fn look_at_steep<S: Dom>(t: &mut Tape, cx: &mut Cx) -> CaseResult {
+    let lm = lim::<S>();
+    let f32_ = S::NAME == "f32";
+    // orthonormal pair (f, w) at unit scale
+    let (f, w): ([f64; 3], [f64; 3]) = match t.below(4) {
+        0 => {
+            cx.label("direction: rational rotation frame");
+            let r = gens::rotation3::<f64>(t);
+            ([r[0][2], r[1][2], r[2][2]], [r[0][1], r[1][1], r[2][1]])
+        }
+        1 => {
+            cx.label("direction: along or next to a coordinate axis");
+            let i = t.below(3);
+            let (j, k) = ((i + 1) % 3, (i + 2) % 3);
+            let mut f = axis(i, if t.bool() { -1.0 } else { 1.0 });
+            if t.bool() {
+                f[j] = p2(-t.int(1, lm.delta));
+                f[k] = if t.bool() { 0.0 } else { -p2(-t.int(1, lm.delta)) };
+            }
+            let f = unit(&f).unwrap().0;
+            let g = if t.bool() { axis(j, 1.0) } else { lin(0.6, &axis(j, 1.0), -0.8, &axis(k, 1.0)) };
+            let h = dot3(&g, &f);
+            (f, unit(&lin(1.0, &g, -h, &f)).unwrap().0)
+        }
+        _ => {
+            cx.label("direction: random");
+            let f = [t.range_f64(-1.0, 1.0), t.range_f64(-1.0, 1.0), t.range_f64(-1.0, 1.0)];
+            let f = match unit(&f) {
+                Some((f, n)) if n > 0.05 => f,
+                _ => [0.48, -0.6, 0.64],
+            };
+            let g = [t.range_f64(-1.0, 1.0), t.range_f64(-1.0, 1.0), t.range_f64(-1.0, 1.0)];
+            let h = dot3(&g, &f);
+            let w = lin(1.0, &g, -h, &f);
+            match unit(&w) {
+                Some((w, n)) if n > 0.05 => (f, w),
+                _ => {
+                    let m = (0..3).min_by(|&a, &b| f[a].abs().partial_cmp(&f[b].abs()).unwrap()).unwrap();
+                    let g = axis(m, 1.0);
+                    (f, unit(&lin(1.0, &g, -f[m], &f)).unwrap().0)
+                }
+            }
+        }
+    };
+    // angle family
+    let (amin, octaves) = if f32_ { (1e-3, 9.0) } else { (1e-7, 22.3) };
+    let (cs, sn): (f64, f64) = match t.below(8) {
+        0 | 1 | 2 => {
+            cx.label("steep: up within 0.5 rad of +forward");
+            let a = 0.5 * (-t.range_f64(0.0, octaves)).exp2();
+            (a.cos(), a.sin())
+        }
+        3 | 4 | 5 => {
+            cx.label("steep: up within 0.5 rad of -forward (antiparallel side)");
+            let a = 0.5 * (-t.range_f64(0.0, octaves)).exp2();
+            (-a.cos(), a.sin())
+        }
+        _ => {
+            cx.label("up almost perpendicular to forward (|cos| 1e-3 .. 1e-12)");
+            let c = 1e-3 * (-t.range_f64(0.0, 30.0)).exp2();
+            (if t.bool() { -c } else { c }, (1.0 - c * c).sqrt())
+        }
+    };
+    let ul = t.pick(&[1.0f64, 1.0, 0.75, 1.5, 3.0, 3.9375]);
+    let l = if t.bool() { t.int(1, 16) as f64 } else { t.range_f64(1.0, 16.0) };
+    let up0 = lin(cs * ul, &f, sn * ul, &w);
+    let d0 = [f[0] * l, f[1] * l, f[2] * l];
+    // magnitudes: ordinary in half of the cases, otherwise exact powers of two over the range of `lim`
+    // (2^4 inside the ends: |up x f|^2 = |up|^2 sin^2 must stay normal down to sin = amin / 2)
+    let pad = if f32_ { 12 } else { 26 };
+    let kd = exp_in(t, lm.kd.0, lm.kd.1);
+    let ku = exp_in(t, lm.ku.0 + pad, lm.ku.1);
+    let eye0: [S; 3] = if t.chance(32) { [S::zero(); 3] } else { vk::gen_vec(t, 20) };
+    let ke = kd + t.int(-6, 2);
+    cx.label(exp_label(0, kd, lm.kd.0, lm.kd.1));
+    cx.label(exp_label(1, ku, lm.ku.0, lm.ku.1));
+    let sc = |v: &[S; 3], k: i64| rf::scale(v, cast::<S>(p2(k)));
+    let eye = sc(&eye0, ke);
+    let d = sc(&[cast::<S>(d0[0]), cast::<S>(d0[1]), cast::<S>(d0[2])], kd);
+    let target = rf::addv(&eye, &d);
+    let up = sc(&[cast::<S>(up0[0]), cast::<S>(up0[1]), cast::<S>(up0[2])], ku);
+
+    // oracle on the values as rounded into S; target - eye as an unevaluated sum hi + lo
+    let (e, tg, upf) = (tof(&eye), tof(&target), tof(&up));
+    let (mut dh, mut dl) = ([0.0; 3], [0.0; 3]);
+    for i in 0..3 {
+        let (s, r) = two_sum(tg[i], -e[i]);
+        dh[i] = s;
+        dl[i] = r;
+    }
+    let Some((fo, dist)) = unit(&dh) else { discard!("precondition:eye == target after rounding") };
+    let Some((un, ulen)) = unit(&upf) else { discard!("precondition:up is zero after rounding") };
+    let ed = exp_of(amax(&dh));
+    let (dhs, dls) = ([dh[0] * p2(-ed), dh[1] * p2(-ed), dh[2] * p2(-ed)], [dl[0] * p2(-ed), dl[1] * p2(-ed), dl[2] * p2(-ed)]);
+    let c = cross_accurate(&un, &dhs, &dls);
+    let Some((side_lh, cn)) = unit(&c) else { discard!("precondition:up parallel to the view direction after rounding") };
+    let dn = dot3(&dhs, &dhs).sqrt();
+    let sin = cn / dn;
+    let cos = dot3(&un, &dhs) / dn;
+    let steep = cs.abs() > 0.5;
+    if steep && sin < amin / 2.0 {
+        discard!("precondition:angle between up and the view direction below half the smallest generated angle after rounding");
+    }
+    if !(dist >= p2(lm.kd.0 - 1) && dist <= p2(lm.kd.1 + 5)) {
+        discard!("precondition:distance left the range in which its square is finite and normal");
+    }
+    if steep {
+        cx.label(if sin >= 0.1 {
+            "angle 0.1 .. 0.5"
+        } else if sin >= 1e-2 {
+            "angle 1e-2 .. 0.1"
+        } else if sin >= 1e-3 {
+            "angle 1e-3 .. 1e-2"
+        } else if sin >= 1e-5 {
+            "angle 1e-5 .. 1e-3"
+        } else {
+            "angle < 1e-5"
+        });
+    } else {
+        cx.label(if cos.abs() >= 1e-6 {
+            "|cos(up, forward)| 1e-6 .. 1e-3"
+        } else if cos.abs() >= 1e-9 {
+            "|cos(up, forward)| 1e-9 .. 1e-6"
+        } else if cos != 0.0 {
+            "|cos(up, forward)| < 1e-9, not 0"
+        } else {
+            "cos(up, forward) exactly 0 after rounding"
+        });
+    }
+    let o = Steep { e, up: upf, dp: dh, f: fo, side_lh, dist, ulen, sin, cos, emag: amax(&e), eps: S::eps() };
+    let nz = |a: &[f64; 3]| a.iter().all(|x| *x != 0.0);
+    cx.set_nontrivial(nz(&o.dp) && nz(&o.up) && (steep || cos != 0.0));
+    sample!(cx, "{} eye={:?} target={:?} up={:?} (distance 2^{} * {:?}, |up| 2^{} * {:?}) sin(up,forward)={:.4e} cos={:.4e}", S::NAME, eye, target, up, kd, dist / p2(kd), ku, ulen / p2(ku), sin, cos);
+
+    let (ve, vt, vu) = (vk::v3(&eye), vk::v3(&target), vk::v3(&up));
+    macro_rules! layout {
+        ($l:ident, $n:expr) => {{
+            let vlh = $l::Mat4::<S>::look_at_lh(ve, vt, vu);
+            let vrh = $l::Mat4::<S>::look_at_rh(ve, vt, vu);
+            let mlh = $l::Mat4::<S>::model_look_at_lh(ve, vt, vu);
+            let mrh = $l::Mat4::<S>::model_look_at_rh(ve, vt, vu);
+            judge_steep::<S>(cx, &o, concat!($n, " look_at_lh / model_look_at_lh"), false, &vlh.to_arr(), &mlh.to_arr())?;
+            judge_steep::<S>(cx, &o, concat!($n, " look_at_rh / model_look_at_rh"), true, &vrh.to_arr(), &mrh.to_arr())?;
+            check_eq!(cx, $l::Mat4::<S>::look_at(ve, vt, vu).to_arr(), vlh.to_arr(), "{} look_at == look_at_lh", $n);
+            check_eq!(cx, $l::Mat4::<S>::model_look_at(ve, vt, vu).to_arr(), mlh.to_arr(), "{} model_look_at == model_look_at_lh", $n);
+        }};
+    }
+    layout!(rm, "row-major");
+    layout!(cm, "col-major");
+    Ok(())
+}
